@@ -344,6 +344,14 @@ def run_lines(vec):
     if vec["xarr"] == "same":
         xvals = FlodymArray(dims=dims, values=2 * vals + 1, name="xq")
         kw["x_array"] = xvals
+    elif vec["xarr"] == "reversed":
+        # the x array stores the same dimensions in the REVERSED order (its entries are matched by label, not by position)
+        rds = list(reversed(ds))
+        xv = np.zeros(tuple(len(DIMOBJ[l].items) for l in rds))
+        for idx in np.ndindex(*xv.shape):
+            xv[idx] = 2 * line_val(ds, tuple(idx[rds.index(l)] for l in ds)) + 1
+        xvals = FlodymArray(dims=DimensionSet(dim_list=[DIMOBJ[l] for l in rds]), values=xv, name="xq")
+        kw["x_array"] = xvals
     elif vec["xarr"] == "intra_only":
         xvals = FlodymArray(dims=DimensionSet(dim_list=[DIMOBJ[intra]]), values=1000.0 + np.arange(len(DIMOBJ[intra].items)), name="xq")
         kw["x_array"] = xvals
